@@ -1,13 +1,21 @@
-"""Open-environment model for the stylesheet compiler: cssparser::Parser as a symbolic token forest, every effect on
-the output as an event.  Used by C08 C09 C10 C17 C18 C19 (DESIGN §3.2)."""
+"""Open-environment model for the stylesheet compiler (DESIGN 3.2).
+
+* `cssparser::Parser` is a contract over a *symbolic token forest*: level `r` is the level the routine under analysis
+  starts in; the block opened by token i of level L is level `L.i`.  Token (L, i) is a SymEnum `Token` whose kind is
+  the z3 Int `k_L_i` and whose payloads are z3 constants named after (L, i, variant, field) - so every path (and both
+  sides of a try_parse rollback) sees the same forest.  The length of level L is the z3 Int `len_L` <= LMAX.
+* every effect on an output is an *event*; calls to the other routines of the transformer are events with the effect on
+  the cursor that their own verification establishes (assume-guarantee per routine).
+"""
+import glob
 import os
 import re
-import glob
 import z3
 
-from .core import Agg, SymEnum, Ref, SeqV, Opaque, UNIT, FnItem, Executor, Path
+from .core import Agg, SymEnum, Ref, SeqV, Opaque, UNIT, FnItem, Executor, Path, MirFrame
 from .mir import MirUnsupported
-from .contracts import contract, TABLE as STD_TABLE, some, NONE, ok, err, is_variant, payload, fork_variant, str_eq
+from . import contracts as C
+from .contracts import some, NONE, ok, err, is_variant, payload, fork_variant, str_eq, call_closure
 
 
 def cssparser_token_variants():
@@ -17,9 +25,7 @@ def cssparser_token_variants():
         raise MirUnsupported('cssparser source not found')
     src = open(cands[0]).read()
     m = re.search(r'pub enum Token<\'a> \{(.*?)\n\}', src, re.S)
-    body = m.group(1)
-    # remove comments
-    body = re.sub(r'//[^\n]*', '', body)
+    body = re.sub(r'//[^\n]*', '', m.group(1))
     variants, depth, cur = [], 0, ''
     for ch in body:
         if ch in '({':
@@ -39,55 +45,580 @@ def cssparser_token_variants():
         table[name] = i
         fm = re.search(r'\{(.*)\}', v, re.S)
         if fm:
-            fields[name] = [re.match(r'\s*(\w+):', f).group(1) for f in fm.group(1).split(',') if f.strip()]
+            fields[name] = [(re.match(r'\s*(\w+):\s*(.*)', f.strip(), re.S).group(1), re.match(r'\s*(\w+):\s*(.*)', f.strip(), re.S).group(2).strip())
+                            for f in split_fields(fm.group(1))]
         elif '(' in v:
-            fields[name] = ['0']
+            fields[name] = [('0', v[v.index('(') + 1:v.rindex(')')].strip())]
         else:
             fields[name] = []
     return table, fields
 
 
+def split_fields(s):
+    out, depth, cur = [], 0, ''
+    for ch in s:
+        if ch in '(<':
+            depth += 1
+        elif ch in ')>':
+            depth -= 1
+        if ch == ',' and depth == 0:
+            if cur.strip():
+                out.append(cur)
+            cur = ''
+        else:
+            cur += ch
+    if cur.strip():
+        out.append(cur)
+    return out
+
+
 TOKEN_DISCR, TOKEN_FIELDS = cssparser_token_variants()
+TK = TOKEN_DISCR
+OPENERS = ('Function', 'ParenthesisBlock', 'SquareBracketBlock', 'CurlyBracketBlock')
+NV = len(TOKEN_DISCR)
 
 SC_ENUMS = {
     r'(^|::)Token$': TOKEN_DISCR,
     r'ParseErrorKind$': {'UnexpectedCharacter': 0x10001, 'IllegalImportPosition': 0x10002, 'HostSelectorCombination': 0x10003},
 }
 
-
-def token_name(v):
-    if isinstance(v, Agg):
-        return v.variant
-    return None
-
-
-# ------------------------------------------------------------------------------------------------ output events
-SC_TABLE = []
+loc_line = z3.Function('loc_line', z3.IntSort(), z3.IntSort(), z3.IntSort(), z3.IntSort())
+loc_col = z3.Function('loc_col', z3.IntSort(), z3.IntSort(), z3.IntSort(), z3.IntSort())
+urlenc = z3.Function('urlencoding_encode', z3.StringSort(), z3.StringSort())
+LEVEL_IDS = {}
 
 
-def sc_contract(rx):
-    def deco(f):
-        SC_TABLE.append((rx, f))
-        return f
-    return deco
+def level_code(level):
+    if level not in LEVEL_IDS:
+        LEVEL_IDS[level] = len(LEVEL_IDS)
+    return LEVEL_IDS[level]
 
 
-@sc_contract(r'^StyleSheetTransformer::append_token$')
-def ev_append_token(exe, path, callee, args, dst_ty):
-    path.event('append_token', args[1], args[3])
-    return [('ret', path, UNIT)]
+def lname(level):
+    return level.replace('.', '_')
 
 
-@sc_contract(r'^StyleSheetTransformer::append_token_space_preserved$')
-def ev_append_token_sp(exe, path, callee, args, dst_ty):
-    path.event('append_token_space_preserved', args[1], args[3])
-    return [('ret', path, UNIT)]
+def level_len(level):
+    return z3.Int('len_' + lname(level))
 
 
-@sc_contract(r'<CowRcStr<\'_> as Deref>::deref$|<cssparser::CowRcStr<\'_> as Deref>::deref$')
-def cow_deref(exe, path, callee, args, dst_ty):
-    return [('ret', path, args[0])]
+def tok_kind(level, i):
+    return z3.Int('k_%s_%d' % (lname(level), i))
 
 
-def full_table():
-    return SC_TABLE + STD_TABLE
+def is_kind(level, i, *names):
+    k = tok_kind(level, i)
+    return z3.Or([k == TK[n] for n in names]) if len(names) > 1 else k == TK[names[0]]
+
+
+def payload_term(level, i, variant, fidx):
+    fields = TOKEN_FIELDS.get(variant)
+    if fields is None or fidx >= len(fields):
+        raise MirUnsupported('payload %s.%d' % (variant, fidx))
+    fname, fty = fields[fidx]
+    base = 't_%s_%d_%s_%s' % (lname(level), i, variant, fname)
+    if fty in ('char',):
+        return z3.Int(base)
+    if fty == 'bool':
+        return z3.Bool(base)
+    if fty == 'f32':
+        return z3.Real(base)
+    if fty.startswith('Option<i32>'):
+        b = z3.Bool(base + '_some')
+        v = z3.Int(base + '_v')
+        return SymEnum(base, 'Option', z3.If(b, z3.IntVal(1), z3.IntVal(0)), lambda var, j, _v=v: _v)
+    if 'CowRcStr' in fty or 'str' in fty:
+        return z3.String(base)
+    raise MirUnsupported('payload type ' + fty)
+
+
+def token(level, i):
+    return SymEnum('%s#%d' % (level, i), 'Token', tok_kind(level, i),
+                   lambda variant, fidx, _l=level, _i=i: payload_term(_l, _i, variant, fidx), meta=(level, i))
+
+
+def token_constraints(level, i):
+    k = tok_kind(level, i)
+    cs = [k >= 0, k < NV, k != TK['Comment']]
+    if i > 0:
+        cs.append(z3.Not(z3.And(k == TK['WhiteSpace'], tok_kind(level, i - 1) == TK['WhiteSpace'])))
+    # chars are scalar values
+    d = z3.Int('t_%s_%d_Delim_0' % (lname(level), i))
+    cs.append(z3.And(d >= 0, d <= 0x10FFFF))
+    return cs
+
+
+class Css:
+    """per-run configuration of the environment"""
+
+    def __init__(self, lmax=3):
+        self.lmax = lmax
+        self.event_routines = {}      # callee regex -> contract
+        self.table = []
+        self._build()
+
+    # ---------------------------------------------------------------- cursor state helpers
+    @staticmethod
+    def cpos(path, level):
+        return path.env['cpos'][level]
+
+    @staticmethod
+    def set_cpos(path, level, pos, pending):
+        d = dict(path.env['cpos'])
+        d[level] = (pos, pending)
+        path.env['cpos'] = d
+        path.env['cursor'] = path.env.get('cursor', 0)
+
+    def ensure_level(self, path, level):
+        if level not in path.env['cpos']:
+            self.set_cpos(path, level, 0, None)
+        n = level_len(level)
+        key = ('parser', level)
+        if key not in path.store:
+            path.store[key] = Agg('Parser', None, {0: level})
+            path.pc.append(z3.And(n >= 0, n <= self.lmax))
+        return Ref(key)
+
+    @staticmethod
+    def level_of(exe, path, parser_ref):
+        v = exe.deref_all(path, parser_ref)
+        if isinstance(v, Agg) and v.name == 'StepParser':
+            v = exe.deref_all(path, v.fields[0])
+        if not (isinstance(v, Agg) and v.name == 'Parser'):
+            raise MirUnsupported('not a parser: %r' % (v,))
+        return v.fields[0]
+
+    def materialize(self, path, level, i):
+        key = ('tok', level, i)
+        if key not in path.store:
+            path.store[key] = token(level, i)
+            path.pc.extend(token_constraints(level, i))
+        return Ref(key)
+
+    def fork_has_token(self, exe, path, level, pos):
+        """-> (yes, no): more tokens at `pos` of `level` / end of level"""
+        n = level_len(level)
+        yes = no = None
+        if pos < self.lmax and exe.feasible(path, [n > pos]):
+            yes = path.clone()
+            yes.pc.append(n > pos)
+            self.materialize(yes, level, pos)
+        if exe.feasible(path, [n <= pos]):
+            no = path.clone()
+            no.pc.append(n <= pos)
+        return yes, no
+
+    # ---------------------------------------------------------------- contracts
+    def _build(self):
+        T = self.table
+        env = self
+
+        def reg(rx):
+            def deco(f):
+                T.append((rx, f))
+                return f
+            return deco
+        P = r"^(cssparser::)?Parser::<'_, '_>::"
+
+        @reg(P + r'next_including_whitespace$')
+        def next_incl(exe, path, callee, args, dst_ty):
+            level = env.level_of(exe, path, args[0])
+            pos, pending = env.cpos(path, level)
+            yes, no = env.fork_has_token(exe, path, level, pos)
+            outs = []
+            if yes is not None:
+                env.set_cpos(yes, level, pos + 1, pos)       # `pending`: a block is pending iff this token opens one
+                yes.env['cursor'] = yes.env.get('cursor', 0) + 1
+                yes.event('consume', level, pos)
+                outs.append(('ret', yes, ok(Ref(('tok', level, pos)))))
+            if no is not None:
+                env.set_cpos(no, level, pos, None)
+                outs.append(('ret', no, err(Opaque('BasicParseError', {'structural': True, 'kind': 'EndOfInput'}))))
+            return outs
+
+        def skip_ws(exe, path, level):
+            """-> list of paths after skipping at most one whitespace token (adjacent whitespace cannot occur)"""
+            pos, pending = env.cpos(path, level)
+            outs = []
+            if pos < env.lmax:
+                c = z3.And(level_len(level) > pos, tok_kind(level, pos) == TK['WhiteSpace'])
+                if exe.feasible(path, [c]):
+                    q = path.clone()
+                    env.materialize(q, level, pos)
+                    q.pc.append(c)
+                    env.set_cpos(q, level, pos + 1, None)
+                    q.env['cursor'] = q.env.get('cursor', 0) + 1
+                    q.event('skip_ws', level, pos)
+                    outs.append(q)
+                nc = z3.Not(c)
+                if exe.feasible(path, [nc]):
+                    q = path.clone()
+                    q.pc.append(nc)
+                    if exe.feasible(q, [level_len(level) > pos]):
+                        pass
+                    env.set_cpos(q, level, pos, None)
+                    outs.append(q)
+            else:
+                q = path
+                q.pc.append(level_len(level) <= pos)
+                env.set_cpos(q, level, pos, None)
+                outs.append(q)
+            return outs
+
+        @reg(P + r'skip_whitespace$')
+        def skip_whitespace(exe, path, callee, args, dst_ty):
+            level = env.level_of(exe, path, args[0])
+            return [('ret', q, UNIT) for q in skip_ws(exe, path, level)]
+
+        @reg(P + r'state$')
+        def state(exe, path, callee, args, dst_ty):
+            level = env.level_of(exe, path, args[0])
+            pos, pending = env.cpos(path, level)
+            return [('ret', path, Agg('ParserState', None, {0: level, 1: pos, 2: pending, 3: path.env.get('cursor', 0)}))]
+
+        @reg(P + r'reset$')
+        def reset(exe, path, callee, args, dst_ty):
+            level = env.level_of(exe, path, args[0])
+            st = exe.deref_all(path, args[1])
+            env.set_cpos(path, level, st.fields[1], st.fields[2])
+            path.env['cursor'] = st.fields[3]
+            path.event('reset', level, st.fields[1])
+            return [('ret', path, UNIT)]
+
+        @reg(P + r'try_parse::<')
+        def try_parse(exe, path, callee, args, dst_ty):
+            level = env.level_of(exe, path, args[0])
+            pos, pending = env.cpos(path, level)
+            saved = (level, pos, pending, path.env.get('cursor', 0))
+
+            def then(exe, p, ret, saved):
+                if not isinstance(ret, Agg) or ret.variant not in ('Ok', 'Err'):
+                    raise MirUnsupported('try_parse closure result %r' % (ret,))
+                if ret.variant == 'Err':
+                    env.set_cpos(p, saved[0], saved[1], saved[2])
+                    p.env['cursor'] = saved[3]
+                    p.event('reset', saved[0], saved[1])
+                return [('ret', p, ret)]
+            return [call_closure(exe, path, args[1], [args[0]], then, saved)]
+
+        @reg(P + r'parse_nested_block::<')
+        def parse_nested_block(exe, path, callee, args, dst_ty):
+            level = env.level_of(exe, path, args[0])
+            pos, pending = env.cpos(path, level)
+            if pending is None:
+                exe.obligation(path, 'panic:parse_nested_block without a just-consumed block token', z3.BoolVal(True), {'level': level})
+                return [('diverge', path)]
+            alive = exe.obligation(path, 'panic:parse_nested_block after a non-block token',
+                                   z3.Not(is_kind(level, pending, *OPENERS)), {'level': level, 'token': pending})
+            if not alive or not exe.feasible(path):
+                return [('diverge', path)]
+            child = '%s.%d' % (level, pending)
+            env.set_cpos(path, level, pos, None)
+            nested = env.ensure_level(path, child)
+            env.set_cpos(path, child, 0, None)
+            path.event('enter', child)
+
+            def then(exe, p, ret, child):
+                p.event('leave', child)
+                cpos, _ = env.cpos(p, child)
+                d = dict(p.env['cpos'])
+                del d[child]
+                p.env['cpos'] = d
+                for k in [k for k in p.store if k[0] in ('tok', 'parser') and isinstance(k[1], str) and (k[1] == child or k[1].startswith(child + '.'))]:
+                    del p.store[k]
+                if not isinstance(ret, Agg) or ret.variant not in ('Ok', 'Err'):
+                    raise MirUnsupported('parse_nested_block closure result %r' % (ret,))
+                if ret.variant == 'Err':
+                    return [('ret', p, err(Opaque('ParseError', {'structural': True})))]
+                # Ok: cssparser then demands the block to be exhausted
+                n = level_len(child)
+                rest_ws = z3.Or(n <= cpos, z3.And(n == cpos + 1, tok_kind(child, min(cpos, env.lmax - 1)) == TK['WhiteSpace'])) if cpos < env.lmax else z3.BoolVal(True)
+                outs = []
+                if exe.feasible(p, [rest_ws]):
+                    q = p.clone()
+                    q.pc.append(rest_ws)
+                    outs.append(('ret', q, ret))
+                if exe.feasible(p, [z3.Not(rest_ws)]):
+                    q = p.clone()
+                    q.pc.append(z3.Not(rest_ws))
+                    outs.append(('ret', q, err(Opaque('ParseError', {'structural': True}))))
+                return outs
+            return [call_closure(exe, path, args[1], [nested], then, child)]
+
+        def exhausted_term(path, level):
+            pos, pending = env.cpos(path, level)
+            n = level_len(level)
+            if pos >= env.lmax:
+                return n <= pos
+            return z3.Or(n <= pos, z3.And(n == pos + 1, tok_kind(level, pos) == TK['WhiteSpace']))
+
+        @reg(P + r'is_exhausted$')
+        def is_exhausted(exe, path, callee, args, dst_ty):
+            level = env.level_of(exe, path, args[0])
+            pos, pending = env.cpos(path, level)
+            if pos < env.lmax:
+                # the look-ahead token's well-formedness constraints
+                c = token_constraints(level, pos)
+                path.pc.append(z3.Implies(level_len(level) > pos, z3.And(c)))
+            return [('ret', path, exhausted_term(path, level))]
+
+        def expect_kind(kind, result_fn):
+            def f(exe, path, callee, args, dst_ty):
+                level = env.level_of(exe, path, args[0])
+                outs = []
+                for p in skip_ws(exe, path, level):
+                    pos, pending = env.cpos(p, level)
+                    yes, no = env.fork_has_token(exe, p, level, pos)
+                    if yes is not None:
+                        env.set_cpos(yes, level, pos + 1, pos)
+                        yes.env['cursor'] = yes.env.get('cursor', 0) + 1
+                        yes.event('consume', level, pos)
+                        c = tok_kind(level, pos) == TK[kind]
+                        if exe.feasible(yes, [c]):
+                            q = yes.clone()
+                            q.pc.append(c)
+                            outs.append(('ret', q, ok(result_fn(level, pos))))
+                        if exe.feasible(yes, [z3.Not(c)]):
+                            q = yes.clone()
+                            q.pc.append(z3.Not(c))
+                            outs.append(('ret', q, err(Opaque('BasicParseError', {'structural': True, 'kind': 'UnexpectedToken'}))))
+                    if no is not None:
+                        outs.append(('ret', no, err(Opaque('BasicParseError', {'structural': True, 'kind': 'EndOfInput'}))))
+                return outs
+            return f
+        T.append((P + r'expect_colon$', expect_kind('Colon', lambda l, i: UNIT)))
+        T.append((P + r'expect_string_cloned$', expect_kind('QuotedString', lambda l, i: payload_term(l, i, 'QuotedString', 0))))
+
+        @reg(P + r'current_source_location$')
+        def current_source_location(exe, path, callee, args, dst_ty):
+            level = env.level_of(exe, path, args[0])
+            pos, pending = env.cpos(path, level)
+            a = (z3.IntVal(level_code(level)), z3.IntVal(pos), z3.IntVal(-1 if pending is None else pending))
+            col = loc_col(*a)
+            line = loc_line(*a)
+            path.pc.append(z3.And(col >= 1, col < 2**31, line >= 0, line < 2**31))
+            return [('ret', path, Agg('SourceLocation', None, {0: line, 1: col}))]
+
+        @reg(P + r'new_error_for_next_token::<|' + P + r'new_custom_error::<|' + P + r'new_basic_error|' + P + r'new_error::<')
+        def new_error(exe, path, callee, args, dst_ty):
+            return [('ret', path, Opaque('ParseError', {'structural': True}))]
+
+        # ------------------------------------------------------------ token helpers
+        @reg(r"<(cssparser::)?Token<'_> as PartialEq>::(eq|ne)$")
+        def token_eq(exe, path, callee, args, dst_ty):
+            a, b = exe.deref_all(path, args[0]), exe.deref_all(path, args[1])
+            if isinstance(b, SymEnum) and isinstance(a, Agg):
+                a, b = b, a
+            if isinstance(a, SymEnum) and isinstance(b, Agg) and not b.fields:
+                r = a.discr == exe.discr_of('Token', b.variant)
+            elif isinstance(a, Agg) and isinstance(b, Agg) and not a.fields and not b.fields:
+                r = z3.BoolVal(a.variant == b.variant)
+            else:
+                raise MirUnsupported('Token equality with payloads: %r %r' % (a, b))
+            return [('ret', path, z3.Not(r) if callee.endswith('ne') else r)]
+
+        @reg(r"<CowRcStr<'_> as Deref>::deref$|<cssparser::CowRcStr<'_> as Deref>::deref$|core::str::<impl str>::as_bytes$|<str as ToString>::to_string$|<String as ToString>::to_string$|<CowRcStr<'_> as ToString>::to_string$|alloc::string::<impl ToString for str>::to_string|<str as ToOwned>::to_owned$")
+        def ident(exe, path, callee, args, dst_ty):
+            return [('ret', path, args[0])]
+
+        @reg(r'^(std::option::)?Option::<String>::unwrap_or_default$')
+        def unwrap_or_default(exe, path, callee, args, dst_ty):
+            v = args[0]
+            yes, no = fork_variant(exe, path, v, 'Some')
+            outs = []
+            if yes is not None:
+                outs.append(('ret', yes, payload(exe, v, 'Some')))
+            if no is not None:
+                outs.append(('ret', no, z3.StringVal('')))
+            return outs
+
+        @reg(r'^(urlencoding::)?encode$')
+        def urlencode(exe, path, callee, args, dst_ty):
+            s = exe.deref_all(path, args[0])
+            return [('ret', path, urlenc(s))]
+
+        # ------------------------------------------------------------ format!
+        @reg(r"core::fmt::rt::Argument::<'_>::new_display::<")
+        def new_display(exe, path, callee, args, dst_ty):
+            return [('ret', path, Agg('FmtArg', None, {0: exe.deref_all(path, args[0])}))]
+
+        @reg(r"^Arguments::<'_>::new::<")
+        def arguments_new(exe, path, callee, args, dst_ty):
+            tmpl = exe.deref_all(path, args[0])
+            arr = exe.deref_all(path, args[1])
+            if not (isinstance(tmpl, z3.ExprRef) and z3.is_string_value(tmpl)):
+                raise MirUnsupported('format template %r' % (tmpl,))
+            raw = tmpl.as_string()
+            # z3 escapes non-printable chars as \u{..}
+            raw = re.sub(r'\\u\{([0-9a-fA-F]+)\}', lambda m: chr(int(m.group(1), 16)), raw)
+            pieces, i, argi = [], 0, 0
+            while i < len(raw):
+                b = ord(raw[i])
+                if b == 0:
+                    break
+                if b == 0xC0:
+                    pieces.append(arr.fields[argi].fields[0])
+                    argi += 1
+                    i += 1
+                elif b < 0x80:
+                    pieces.append(z3.StringVal(raw[i + 1:i + 1 + b]))
+                    i += 1 + b
+                else:
+                    raise MirUnsupported('format template byte %#x' % b)
+            return [('ret', path, Agg('Arguments', None, {0: tuple(pieces)}))]
+
+        @reg(r'^(alloc::fmt::|std::fmt::)?format$')
+        def fmt_format(exe, path, callee, args, dst_ty):
+            a = args[0]
+            pieces = [p for p in a.fields[0]]
+            for p in pieces:
+                if not (isinstance(p, z3.ExprRef) and z3.is_string(p)):
+                    raise MirUnsupported('format argument %r' % (p,))
+            r = pieces[0] if len(pieces) == 1 else z3.Concat(*pieces)
+            return [('ret', path, r)]
+
+        @reg(r'^must_use::<')
+        def must_use(exe, path, callee, args, dst_ty):
+            return [('ret', path, args[0])]
+
+        # ------------------------------------------------------------ outputs (events)
+        def which(out_ref):
+            for st in out_ref.proj:
+                if st == ('field', 2):
+                    return 'normal'
+                if st == ('field', 3):
+                    return 'low'
+            return repr(out_ref)
+
+        @reg(r'^(output::)?StyleSheetOutput::append_token$')
+        def out_append_token(exe, path, callee, args, dst_ty):
+            path.event('out', which(args[0]), 'token', exe.snapshot(path, args[1]), exe.snapshot(path, args[2]))
+            return [('ret', path, UNIT)]
+
+        @reg(r'^(output::)?StyleSheetOutput::append_token_space_preserved$')
+        def out_append_token_sp(exe, path, callee, args, dst_ty):
+            path.event('out', which(args[0]), 'token_sp', exe.snapshot(path, args[1]), exe.snapshot(path, args[2]))
+            return [('ret', path, UNIT)]
+
+        @reg(r'^(output::)?StyleSheetOutput::append_raw$')
+        def out_append_raw(exe, path, callee, args, dst_ty):
+            path.event('out', which(args[0]), 'raw', exe.snapshot(path, args[1]), None)
+            return [('ret', path, UNIT)]
+
+        @reg(r'^(output::)?StyleSheetOutput::cur_utf8_len$')
+        def out_len(exe, path, callee, args, dst_ty):
+            n = sum(1 for e in path.events if e[0] == 'out')
+            return [('ret', path, z3.IntVal(n))]          # "length" = number of output events so far (a mark)
+
+        @reg(r'^(output::)?StyleSheetOutput::get_output_segment$')
+        def out_segment(exe, path, callee, args, dst_ty):
+            rng = args[1]
+            a, b = z3.simplify(rng.fields[0]), z3.simplify(rng.fields[1])
+            return [('ret', path, Opaque('segment', {'structural': True, 'which': which(args[0]), 'from': a, 'to': b}))]
+
+        @reg(r'^StyleSheetTransformer::add_warning$')
+        def add_warning(exe, path, callee, args, dst_ty):
+            path.event('warning', exe.snapshot(path, args[1]), exe.snapshot(path, args[2]))
+            return [('ret', path, UNIT)]
+
+    # ---------------------------------------------------------------- sub-routine events
+    def routine_events(self, names):
+        """contracts that turn calls to other routines into events with their cursor effect"""
+        env = self
+        T = []
+
+        def consume_block(exe, path, name, args, opts):
+            level = env.level_of(exe, path, args[0])
+            pos, pending = env.cpos(path, level)
+            if pending is None:
+                exe.obligation(path, 'panic:%s called without a pending block' % name, z3.BoolVal(True), {})
+                return [('diverge', path)]
+            alive = exe.obligation(path, 'panic:%s called after a non-block token' % name,
+                                   z3.Not(is_kind(level, pending, *OPENERS)), {})
+            if not alive or not exe.feasible(path):
+                return [('diverge', path)]
+            env.set_cpos(path, level, pos, None)
+            ss = exe.deref_all(path, args[1])
+            low = ss.fields.get(4) if isinstance(ss, Agg) else None
+            path.event('recurse', name, level, pending, opts, low, ss.fields.get(6) if isinstance(ss, Agg) else None)
+            return [('ret', path, UNIT)]
+        if 'convert_rpx_in_block' in names:
+            def c1(exe, path, callee, args, dst_ty):
+                o = args[2]
+                if isinstance(o, Agg) and o.variant == 'Some':
+                    opts = ('in_calc', o.fields[0].fields[0])
+                elif isinstance(o, Agg) and o.variant == 'None':
+                    opts = None
+                else:
+                    raise MirUnsupported('convert options %r' % (o,))
+                return consume_block(exe, path, 'convert_rpx_in_block', args, opts)
+            T.append((r'^convert_rpx_in_block$', c1))
+        if 'convert_class_names_and_rpx_in_block' in names:
+            T.append((r'^convert_class_names_and_rpx_in_block$',
+                      lambda exe, path, callee, args, dst_ty: consume_block(exe, path, 'convert_class_names_and_rpx_in_block', args, None)))
+        if 'parse_rules' in names:
+            def c3(exe, path, callee, args, dst_ty):
+                level = env.level_of(exe, path, args[0])
+                pos, pending = env.cpos(path, level)
+                # consumes the rest of the level
+                ss = exe.deref_all(path, args[1])
+                path.event('recurse', 'parse_rules', level, pos, None, ss.fields.get(4) if isinstance(ss, Agg) else None,
+                           ss.fields.get(6) if isinstance(ss, Agg) else None)
+                env.set_cpos(path, level, env.lmax + 1, None)
+                path.pc.append(level_len(level) <= env.lmax)
+                return [('ret', path, UNIT)]
+            T.append((r'^parse_rules$', c3))
+        if 'write_maybe_class_name' in names:
+            def c4(exe, path, callee, args, dst_ty):
+                path.event('class_name', exe.snapshot(path, args[2]), exe.snapshot(path, args[3]), args[4])
+                return [('ret', path, UNIT)]
+            T.append((r'^write_maybe_class_name$', c4))
+        if 'write_maybe_rpx_dimension' in names:
+            def c5(exe, path, callee, args, dst_ty):
+                path.event('rpx_dimension', exe.snapshot(path, args[2]), args[3], args[4], args[5], exe.snapshot(path, args[6]))
+                return [('ret', path, UNIT)]
+            T.append((r'^write_maybe_rpx_dimension$', c5))
+        return T
+
+    # ---------------------------------------------------------------- harness
+    def new_path(self, exe, options=None):
+        p = Path()
+        p.env['cpos'] = {}
+        p.env['cursor'] = 0
+        root = self.ensure_level(p, 'r')
+        p.store[('heap', 'input')] = Agg('StepParser', None, {0: root})
+        o = options or {}
+
+        def opt_string(name):
+            v = o.get(name, 'sym')
+            if v is None:
+                return NONE
+            if v == 'sym':
+                b = z3.Bool('opt_%s_some' % name)
+                s = z3.String('opt_' + name)
+                return SymEnum('opt_' + name, 'Option', z3.If(b, z3.IntVal(1), z3.IntVal(0)), lambda var, j, _s=s: _s)
+            return some(z3.StringVal(v))
+        conv = o.get('convert_host', 'sym')
+        options_v = Agg('StyleSheetOptions', None, {
+            0: opt_string('class_prefix'), 1: opt_string('class_prefix_sign'), 2: z3.Real('opt_rpx_ratio'),
+            3: opt_string('import_sign'), 4: z3.Bool('opt_convert_host') if conv == 'sym' else z3.BoolVal(bool(conv)),
+            5: opt_string('host_is')})
+        stacks = o.get('at_rule_stack', 0)
+        p.store[('heap', 'ss')] = Agg('StyleSheetTransformer', None, {
+            0: options_v, 1: z3.String('ss_path'), 2: Agg('StyleSheetOutput', None, {0: 'normal'}), 3: Agg('StyleSheetOutput', None, {0: 'low'}),
+            4: z3.BoolVal(False), 5: Agg('Vec', None, {}),
+            6: Agg('Vec', None, {i: z3.String('at_rule_%d' % i) for i in range(stacks)})})
+        return p
+
+    def executor(self, mod, event_names=(), lmax=None, max_visits=None, extra=()):
+        exe = Executor(mod, list(extra) + self.routine_events(event_names) + self.table + C.TABLE, enums=SC_ENUMS,
+                       max_visits=max_visits or (self.lmax * 3 + 6), timeout_ms=20000)
+        exe.merge = False
+        return exe
+
+
+def describe_token(model, level, i):
+    """concrete rendering of token (level, i) under a model (for counterexample forests)"""
+    k = model.eval(tok_kind(level, i), model_completion=True).as_long()
+    name = [n for n, v in TK.items() if v == k]
+    return name[0] if name else '?%d' % k
